@@ -44,7 +44,7 @@ func (v variant) app() channel.App {
 }
 
 // parentParams is the (never persisted) ledger channel the sub-channel variants name as parent.
-var parentParams = fx.Params(2, channel.NoApp(), 6, true, false)
+var parentParams = mkParams(2, channel.NoApp(), 6, true)
 
 const (
 	lifeNone = iota // ChannelCreated not yet called
@@ -63,14 +63,15 @@ type world struct {
 	peers  []map[wallet.BackendID]wire.Address
 	parent *channel.ID
 	life   int
+	fixed  *snap // encoding of parameters, peers, parent (liveSnap)
 }
 
 func newWorld(v variant, backend string) *world {
 	b := openBacking(backend)
 	db := &faultDB{Database: b.db, limit: -1}
 	pr := keyvalue.NewPersistRestorer(db)
-	p := fx.Params(v.N, v.app(), 7, !v.Parent, false)
-	sm, err := channel.NewStateMachine(fx.AccMap(v.Idx), *p.Clone())
+	p := mkParams(v.N, v.app(), 7, !v.Parent)
+	sm, err := channel.NewStateMachine(accMap(v.Idx), *p.Clone())
 	if err != nil {
 		panic(err)
 	}
@@ -98,13 +99,7 @@ func (w *world) clone() *world {
 	return &world{v: w.v, b: b, db: db, pr: pr, sm: sm, m: persistence.FromStateMachine(sm, pr), params: w.params, peers: w.peers, parent: w.parent, life: w.life}
 }
 
-func (w *world) initAlloc() channel.Allocation {
-	row := make([]int64, w.v.N)
-	for i := range row {
-		row[i] = 5
-	}
-	return fx.Alloc(row)
-}
+func (w *world) initAlloc() channel.Allocation { return evenAlloc(w.v.N) }
 
 // cand builds a candidate successor of the current state (a function of the current state only).
 func (w *world) cand(kind string) *channel.State {
@@ -148,6 +143,9 @@ type op struct {
 // participant) plus one failing shape per argument guard; the phase guards fail by themselves
 // because every operation is offered in every state.
 func ops(v variant) []op {
+	if v.N > 3 {
+		return opsLarge(v)
+	}
 	live := func(w *world) bool { return w.life == lifeLive }
 	capOK := func(w *world) bool {
 		return w.life == lifeLive && (w.sm.State() == nil || w.sm.State().Version < v.VerCap)
@@ -177,7 +175,7 @@ func ops(v variant) []op {
 		o = append(o, op{fmt.Sprintf("AddSig(%d,valid)", i), live, func(w *world) error {
 			sig := wallet.Sig(garbage)
 			if stg := w.sm.StagingState(); stg != nil {
-				sig = fx.Sig(i, stg)
+				sig = sigOf(i, stg)
 			}
 			return w.m.AddSig(ctx, channel.Index(i), sig)
 		}})
@@ -225,12 +223,86 @@ func ops(v variant) []op {
 	return o
 }
 
+// opsLarge is the alphabet of the many-party variants (10 participants: the boundary of the
+// signature key width). With one AddSig per slot the signature subsets alone would give 2^N
+// states per staged state, so only the slots 0, 1 and N-1 (first, second, last: one and - at
+// a wider key - two digits) are offered freely; the slots between are filled in ascending
+// order by one operation, offered once slots 1 and N-1 are filled. Every AddSig is still one real call with its own crash points.
+// The life cycle is Init .. EnableInit, SetFunded, Update / DiscardUpdate / EnableUpdate,
+// SetRegistered, SetWithdrawing, SetWithdrawn; every operation is offered in every live state.
+func opsLarge(v variant) []op {
+	live := func(w *world) bool { return w.life == lifeLive }
+	garbage := bytes.Repeat([]byte{1}, 64)
+	addSig := func(w *world, i int) error {
+		sig := wallet.Sig(garbage)
+		if stg := w.sm.StagingState(); stg != nil {
+			sig = sigOf(i, stg)
+		}
+		return w.m.AddSig(ctx, channel.Index(i), sig)
+	}
+	o := []op{
+		{"ChannelCreated", func(w *world) bool { return w.life == lifeNone }, func(w *world) error {
+			err := w.pr.ChannelCreated(ctx, w.m, w.peers, w.parent)
+			if err == nil {
+				w.life = lifeLive
+			}
+			return err
+		}},
+		{"Init(valid)", live, func(w *world) error { return w.m.Init(ctx, w.initAlloc(), channel.NoData()) }},
+		{"Sig", live, func(w *world) error { _, err := w.m.Sig(ctx); return err }},
+	}
+	for _, i := range []int{0, 1, v.N - 1} {
+		i := i
+		o = append(o, op{fmt.Sprintf("AddSig(%d,valid)", i), live, func(w *world) error { return addSig(w, i) }})
+	}
+	midOK := func(w *world) bool { // offered once the slots 1 and N-1 are filled (fewer subsets)
+		tx := w.sm.StagingTX()
+		return w.life == lifeLive && len(tx.Sigs) == v.N && tx.Sigs[1] != nil && tx.Sigs[v.N-1] != nil
+	}
+	o = append(o,
+		op{fmt.Sprintf("AddSig(next of 2..%d,valid)", v.N-2), midOK, func(w *world) error {
+			tx := w.sm.StagingTX()
+			for i := 2; i <= v.N-2; i++ {
+				if i < len(tx.Sigs) && tx.Sigs[i] == nil {
+					return addSig(w, i)
+				}
+			}
+			return addSig(w, 2) // nothing staged / all present: the refused shape
+		}},
+		op{"EnableInit", live, func(w *world) error { return w.m.EnableInit(ctx) }},
+		op{"SetFunded", live, func(w *world) error { return w.m.SetFunded(ctx) }},
+		op{"Update(next)", func(w *world) bool {
+			return w.life == lifeLive && w.sm.State() != nil && w.sm.State().Version < v.VerCap
+		}, func(w *world) error { return w.m.Update(ctx, w.cand("next"), 0) }},
+		op{"DiscardUpdate", live, func(w *world) error { return w.m.DiscardUpdate(ctx) }},
+		op{"EnableUpdate", live, func(w *world) error { return w.m.EnableUpdate(ctx) }},
+		op{"SetRegistered", live, func(w *world) error { return w.m.SetRegistered(ctx) }},
+		op{"SetWithdrawing", live, func(w *world) error { return w.m.SetWithdrawing(ctx) }},
+		op{"SetWithdrawn", live, func(w *world) error {
+			err := w.m.SetWithdrawn(ctx)
+			if err == nil {
+				w.life = lifeRemoved
+			}
+			return err
+		}},
+	)
+	return o
+}
+
 // liveSnap is what a restore must yield for the present state of the live machine.
 func (w *world) liveSnap() snap {
 	if w.life != lifeLive {
 		return snap{Absent: true}
 	}
-	return snapOf(w.sm, w.peers, w.parent)
+	if w.fixed == nil { // parameters, peers and parent of the live channel never change
+		f := snapOf(w.sm, w.peers, w.parent)
+		w.fixed = &f
+	}
+	s := *w.fixed
+	s.Idx, s.Phase = w.sm.Idx(), w.sm.Phase()
+	s.Cur, s.CurSigs = fx.Enc(w.sm.CurrentTX().State), sigSet(w.sm.CurrentTX())
+	s.Stg, s.StgSigs = fx.Enc(w.sm.StagingTX().State), sigSet(w.sm.StagingTX())
+	return s
 }
 
 func (w *world) sigStatus(tx channel.Transaction) string {
@@ -263,7 +335,10 @@ var paths = []string{"RestoreChannel", "RestorePeer"}
 func (w *world) observe() map[string][]snap {
 	pr := keyvalue.NewPersistRestorer(w.b.reopen())
 	out := map[string][]snap{"RestoreChannel": {restoreChannel(pr, w.params.ID())}}
-	for _, p := range w.peers {
+	for pi, p := range w.peers {
+		if n := len(w.peers); n > 3 && pi != 0 && pi != 1 && pi != n-1 {
+			continue // many-party variants: the first, second and last peer
+		}
 		list, errs := restorePeer(pr, p)
 		var s snap
 		switch {
@@ -472,6 +547,7 @@ func c10Variants(thorough bool) []variant {
 			{"2p-noapp-idx0", 2, 0, "noapp", false, 1, false},
 			{"2p-noapp-idx0-sub", 2, 0, "noapp", true, 1, false},
 			{"2p-noapp-idx1", 2, 1, "noapp", false, 1, false},
+			{"10p-noapp-idx0", 10, 0, "noapp", false, 1, false},
 		}
 	}
 	// LevelDB costs ~30 ms per crash point (two opens of a database on disk): it gets the
@@ -484,6 +560,8 @@ func c10Variants(thorough bool) []variant {
 		{"2p-noapp-idx1", 2, 1, "noapp", false, 2, false},
 		{"2p-payment-idx0", 2, 0, "payment", false, 2, false},
 		{"3p-noapp-idx1-sub", 3, 1, "noapp", true, 1, false},
+		{"10p-noapp-idx0", 10, 0, "noapp", false, 1, false},
+		{"10p-noapp-idx9-sub", 10, 9, "noapp", true, 1, false},
 	}
 }
 
